@@ -99,7 +99,7 @@ ASSUMPTIONS = [
     'whitened measures go through the library\'s conjugate-gradient solve: tolerance 1e-5 (largest deviation seen 6e-8)',
 ]
 TOL = 1e-9
-TOL_CG = 1e-5
+TOL_CG = 1e-4     # scipy cg stops at a relative RESIDUAL of 1e-5; the error of the whitened similarity can exceed that
 GAP_MIN = 1e-6
 TOLERANCES = {'transform values': TOL, 'invariance plain': TOL, 'invariance whitened(cg)': TOL_CG,
               'quantile threshold gap below which geo-topological is undefined': GAP_MIN}
